@@ -104,6 +104,14 @@ def generate(rng, tier, ctx):
         else: lens = sorted({0, 1, 31, 32, 32 * n, 32 * n + 31, 32 * (n + 1) - 1, 32 * (n + 1) + 1, 32 * (n + 1) + 31, 32 * (n + 2), rng.randint(0, 32 * (n + 2))})
         for L in lens:
             A(agg_line(L, sets[n]), 'buf-zero' if L == 0 else 'buf-short' if L < 32 * (n + 1) else 'buf-exact' if L == 32 * (n + 1) else 'buf-long')
+    # aggverify with an aggregate of every wrong length around 32(n+1) (truncated / zero- or garbage-extended)
+    for n in [x for x in sizes if x <= 8]:
+        good = aggs[n]
+        for d in [-33, -32, -17, -16, -1, 1, 8, 15, 16, 17, 24, 31, 32, 33, 48, 64]:
+            L = len(good) + d
+            if L < 0: continue
+            bad = good[:L] if d < 0 else good + (rng.bytes(d) if rng.random() < 0.5 else bytes(d))
+            V(ver_line(bad, pairs_of(sets[n])), 'len%+d' % d)
     # aggregation does not validate its inputs
     tasks = []
     def t_unvalidated(rep):
@@ -150,7 +158,7 @@ def generate(rng, tier, ctx):
         cuts = [c1, c2] + ([rng.randint(c2, n)] if rng.random() < 0.3 else [])
         tasks.append(t_split(tr, cuts, 'split%d' % (len(cuts) + 1), rep % 4 == 0))
     # one signature at a time up to 64
-    tasks.append(t_split(sets[64], list(range(0, 64)) if not quick else [0, 1, 2, 3, 10, 30, 63], 'one-by-one'))
+    tasks.append(t_split(sets[64], list(range(0, 64)) if not quick else [0, 1, 2, 3, 10, 16, 30, 32, 48, 50, 51, 56, 63], 'one-by-one'))
     # buffer-length contract and argument checks of inc_aggregate
     def t_contract(rep):
         n = rng.randint(1, 6); n1 = rng.randint(0, n); tr = pool.sel(rng.sample(range(64), n))
